@@ -38,6 +38,10 @@ MessageFails(e) ==
     LET b == e.bytes IN
     (IF e.accepted /\ ~(Len(b) >= 16 /\ 16 + U16(b, 14) <= Len(b)) THEN {"C03"} ELSE {})
     \cup (IF e.accepted /\ Len(b) >= 16 /\ (e.pkt.len # U16(b, 14) \/ Len(e.pkt.pl) # U16(b, 14)) THEN {"C03"} ELSE {})
+    \cup (IF e.accepted /\ Has(e, "views") /\                            \* a packet returned as valid, through its typed class
+             ~(InBounds(e.kind, e.pkt.pl) /\ \A x \in 1..Len(e.views) :
+                    LET v == e.views[x] IN Has(v, "null") \/ (v.off >= 0 /\ v.off + v.len <= Len(e.pkt.pl)))
+          THEN {"C03"} ELSE {})
     \cup (IF e.accepted # (Len(b) >= 16 /\ 16 + U16(b, 14) <= Len(b) /\ (At(b, 12) \div 64) % 2 = 0 /\ At(b, 13) # 0) THEN {"NC"} ELSE {})
 
 Step ==
